@@ -53,7 +53,10 @@ CONSTANTS
     InstallRevs,  \* revisions offered to install-many
     RefreshRevs,  \* revisions offered to update-many
     RetainInit,   \* raw refresh.retain value [t, v]
-    OpFaults      \* BOOLEAN: also fail inside backend operations
+    InitCtx,      \* set of initial contexts [Snaps -> kept sequence] (<<>> = not installed; current = last, active)
+    OpFaults,     \* BOOLEAN: also fail inside backend operations
+    Compact,      \* BOOLEAN: model-checking abstraction -- keep only the tasks of KeepKinds in every chain
+    Reduce        \* BOOLEAN: model-checking reduction -- canonical order of independent steps (see MayStep)
 
 VARIABLES
     recs,      \* [Snaps -> SnapSeq record]
@@ -102,36 +105,45 @@ SnapKind(kind) == CASE kind = "install-many" -> "install"
 \* the single-snap operation SnapSeq knows, for one item [snap, rev] of a multi request
 OpOf(kind, it) == SS!MkOp(SnapKind(kind), IF kind = "remove-many" THEN 0 ELSE it.rev, SS!PlainAttr, FALSE)
 
-ChainOf(kind, it) == SS!ChainFor(recs[it.snap], env, OpOf(kind, it))
+\* Compact chains (model checking only; recorded real changes are validated with the full chains): the tasks that
+\* change the record or the system, plus one task without effect of each sort (first / with undo handler / without /
+\* after the garbage collection / last).  The dropped tasks have no effect on (record, world) in SnapSeq either, so
+\* they only add positions at which "nothing more happens" to the interleavings.
+KeepKinds == {"prerequisites", "download-snap", "prepare-snap", "mount-snap", "unlink-current-snap", "copy-snap-data",
+              "link-snap", "unlink-snap", "clear-snap", "discard-snap", "cleanup", "run-hook[configure]",
+              "stop-snap-services", "save-snapshot"}
+ChainOf(kind, it) ==
+    LET full == SS!ChainFor(recs[it.snap], env, OpOf(kind, it))
+    IN  IF Compact THEN SelectSeq(full, LAMBDA t : t.k \in KeepKinds) ELSE full
 
-RECURSIVE FirstOf(_, _, _)
-FirstOf(kind, sel, i) == IF i = 1 THEN 1 ELSE FirstOf(kind, sel, i - 1) + Len(ChainOf(kind, sel[i - 1]))
-NSnapTasks(kind, sel) == FirstOf(kind, sel, Len(sel) + 1) - 1
 \* UpdateMany appends check-rerefresh (finalizeUpdate; Flags.NoReRefresh is not set by the entry point)
 HasRR(kind) == kind = "update-many"
-NTasks(kind, sel) == NSnapTasks(kind, sel) + (IF HasRR(kind) THEN 1 ELSE 0)
 
-\* position (in sel) of the snap that owns task t, 0 for check-rerefresh / unused
-OwnerOf(kind, sel, t) ==
-    IF \E i \in 1..Len(sel) : FirstOf(kind, sel, i) <= t /\ t < FirstOf(kind, sel, i + 1)
-       THEN CHOOSE i \in 1..Len(sel) : FirstOf(kind, sel, i) <= t /\ t < FirstOf(kind, sel, i + 1)
-       ELSE 0
+\* Layout of the tasks of a request: chains[i], first[i] (task number of the first task of the i-th snap; first[n+1]
+\* = one past the last), n = number of snap tasks, owner[t] = position of the snap that owns task t (0 for
+\* check-rerefresh / unused)
+RECURSIVE FirstsOf(_, _)
+FirstsOf(chains, i) == IF i = 1 THEN 1 ELSE FirstsOf(chains, i - 1) + Len(chains[i - 1])
+Layout(kind, sel) ==
+    LET chains == [i \in 1..Len(sel) |-> ChainOf(kind, sel[i])]
+        first  == [i \in 1..(Len(sel) + 1) |-> FirstsOf(chains, i)]
+        n      == first[Len(sel) + 1] - 1
+    IN [chains |-> chains, first |-> first, n |-> n, nt |-> n + (IF HasRR(kind) THEN 1 ELSE 0),
+        owner |-> [t \in Tasks |-> IF t > n THEN 0 ELSE CHOOSE i \in 1..Len(sel) : first[i] <= t /\ t < first[i + 1]]]
 
 \* THE LANE RULE (E01): per-snap -> the i-th snap's tasks join the i-th new lane; all-snaps -> one lane for all.
 \* Lane numbers are those of first appearance in task order (the real ones are renumbered the same way).
 LaneOfPos(txn, i) == IF txn THEN 1 ELSE i
-SpecLanes(kind, txn, sel) ==
-    [t \in Tasks |-> LET i == OwnerOf(kind, sel, t) IN IF i = 0 THEN <<0>> ELSE <<LaneOfPos(txn, i)>>]
+SpecLanes(ly, txn) == [t \in Tasks |-> IF ly.owner[t] = 0 THEN <<0>> ELSE <<LaneOfPos(txn, ly.owner[t])>>]
 \* every task of a chain waits for its predecessor (the real tasks may in addition wait for earlier ones)
-SpecWaits(kind, sel) ==
-    [t \in Tasks |-> LET i == OwnerOf(kind, sel, t) IN
-                     IF i = 0 \/ t = FirstOf(kind, sel, i) THEN {} ELSE {t - 1}]
+SpecWaits(ly) == [t \in Tasks |-> IF ly.owner[t] = 0 \/ t = ly.first[ly.owner[t]] THEN {} ELSE {t - 1}]
 
 IdlePer == [in |-> FALSE, pos |-> 0, op |-> [kind |-> "none"], sup |-> SS!NoSup, chain |-> <<>>, first |-> 0,
             loc |-> <<>>, pre |-> [rec |-> SS!EmptyRec, world |-> SS!EmptyWorld], disc |-> {},
             fail |-> [idx |-> 0, mode |-> ""]]
 
 IdleChg == [phase |-> "idle", kind |-> "none", txn |-> FALSE, sel |-> <<>>, n |-> 0, rr |-> 0, owner |-> [t \in Tasks |-> 0],
+            first |-> <<1>>,
             per |-> [s \in Snaps |-> IdlePer], status |-> "none", now |-> 0, nfail |-> 0]
 
 Idle == chg.phase = "idle"
@@ -144,39 +156,38 @@ CanRequestAll(kind, sel) ==
     /\ \A i, j \in 1..Len(sel) : i # j => sel[i].snap # sel[j].snap
     /\ \A i \in 1..Len(sel) : SS!CanRequest(recs[sel[i].snap], env, OpOf(kind, sel[i]))
 
-PerFor(kind, sel, s) ==
+PerFor(kind, sel, ly, s) ==
     IF s \notin SelSnaps(sel) THEN [IdlePer EXCEPT !.pre = [rec |-> recs[s], world |-> worlds[s]]]
     ELSE LET i  == PosOf(sel, s)
              op == OpOf(kind, sel[i])
-             ch == ChainOf(kind, sel[i])
+             ch == ly.chains[i]
          IN [in |-> TRUE, pos |-> i, op |-> op, sup |-> SS!SupFor(recs[s], op), chain |-> ch,
-             first |-> FirstOf(kind, sel, i), loc |-> [j \in 1..Len(ch) |-> SS!NoLoc],
+             first |-> ly.first[i], loc |-> [j \in 1..Len(ch) |-> SS!NoLoc],
              pre |-> [rec |-> recs[s], world |-> worlds[s]], disc |-> {}, fail |-> [idx |-> 0, mode |-> ""]]
 
 KindOfTask(c, t) == IF t = c.rr THEN "check-rerefresh"
                     ELSE LET s == c.sel[c.owner[t]].snap IN c.per[s].chain[t - c.per[s].first + 1].k
 
 \* a request that is accepted: the change with graph (L = lanes, W = waits), all tasks in Do
-StartMulti(kind, txn, sel, now, L, W) ==
-    LET n  == NSnapTasks(kind, sel)
-        nt == NTasks(kind, sel)
-        c  == [phase |-> "run", kind |-> kind, txn |-> txn, sel |-> sel, n |-> n, rr |-> IF HasRR(kind) THEN n + 1 ELSE 0,
-               owner |-> [t \in Tasks |-> OwnerOf(kind, sel, t)],
-               per |-> [s \in Snaps |-> PerFor(kind, sel, s)], status |-> "Doing", now |-> now, nfail |-> 0]
-    IN /\ nt <= MaxTasks
-       /\ chg' = c
-       /\ status' = [t \in Tasks |-> IF t <= nt THEN "Do" ELSE "Done"]
-       /\ chgOf' = [t \in Tasks |-> IF t <= nt THEN 1 ELSE 2]
+StartMulti(kind, txn, sel, ly, now, L, W) ==
+    LET c  == [phase |-> "run", kind |-> kind, txn |-> txn, sel |-> sel, n |-> ly.n, rr |-> IF HasRR(kind) THEN ly.n + 1 ELSE 0,
+               owner |-> ly.owner, first |-> ly.first,
+               per |-> [s \in Snaps |-> PerFor(kind, sel, ly, s)], status |-> "Doing", now |-> now, nfail |-> 0]
+    IN /\ chg' = c
+       /\ status' = [t \in Tasks |-> IF t <= ly.nt THEN "Do" ELSE "Done"]
+       /\ chgOf' = [t \in Tasks |-> IF t <= ly.nt THEN 1 ELSE 2]
        /\ lanes' = L
        /\ waits' = W
-       /\ hasUndo' = [t \in Tasks |-> t <= nt /\ HasUndoKind(KindOfTask(c, t))]
+       /\ hasUndo' = [t \in Tasks |-> t <= ly.nt /\ HasUndoKind(KindOfTask(c, t))]
        /\ rdy' = [c2 \in 1..2 |-> FALSE]
        /\ panicked' = FALSE
 
 Request(kind, txn, sel) ==
     /\ Idle /\ clock < MaxOps
     /\ CanRequestAll(kind, sel)
-    /\ StartMulti(kind, txn, sel, clock + 1, SpecLanes(kind, txn, sel), SpecWaits(kind, sel))
+    /\ LET ly == Layout(kind, sel) IN
+       /\ ly.nt <= MaxTasks
+       /\ StartMulti(kind, txn, sel, ly, clock + 1, SpecLanes(ly, txn), SpecWaits(ly))
     /\ clock' = clock + 1
     /\ UNCHANGED <<recs, worlds, env>>
 
@@ -231,7 +242,17 @@ Fail(t, mode) ==
     /\ LET s == SnapOf(t)  i == IdxOf(t)  tk == TaskOf(t)  p == chg.per[s] IN
        /\ \/ mode = "self" /\ status[t] \in {"Doing", "Abort"} /\ SS!DoFailsItself(recs[s], tk)
           \/ /\ p.fail.idx = 0 /\ chg.nfail < MaxFaults
-             /\ \/ mode = "entry" /\ status[t] = "Do" /\ ~TE!MustWait(TE!Mem, t)
+             /\ \/ /\ mode = "entry" /\ status[t] = "Do" /\ ~TE!MustWait(TE!Mem, t)
+                   \* Harness artefact, excluded: a chain's FIRST task failing while it is still in Do when every task
+                   \* outside its chain is already ready.  All of the chain goes Do -> Hold, the change is marked
+                   \* ready half-way through abortTasks and a later Done -> Undo of another chain trips "change
+                   \* unexpectedly became unready" -- TaskEngine's known abort-order panic (known finding C03), which
+                   \* TLC finds here too without this conjunct.  The engine's own failure path (task in Doing) cannot
+                   \* get there, and neither can the harness: its predicate fires in the first Ensure pass in which
+                   \* the task is not held back by the serialisation of "prerequisites" tasks (snapmgr.blockedTask),
+                   \* when the other chains cannot all have finished.
+                   /\ (i = 1 => \/ \A u \in Tasks : InChange(u) => chg.owner[u] = chg.owner[t]
+                                \/ \E u \in Tasks : InChange(u) /\ chg.owner[u] # chg.owner[t] /\ ~TE!IsReadyS(status[u]))
                 \/ mode \in OpModesOf(t) /\ status[t] \in {"Doing", "Abort"} /\ ~SS!DoFailsItself(recs[s], tk)
        /\ SetSnap(s, SS!FailTask(recs[s], worlds[s], p.sup, tk, mode))
        /\ chg' = [chg EXCEPT !.per[s].fail = [idx |-> i, mode |-> mode], !.nfail = @ + 1]
@@ -289,9 +310,16 @@ Sels(kind) ==
 
 FailModes(t) == {"entry", "self"} \cup (IF IsSnapTask(t) THEN OpModesOf(t) ELSE {})
 
+\* a settled, consistent snap with kept revisions `seq` (current = the last one), as install + refreshes leave it
+\* (SnapSeq reaches these states; the thorough configurations start from the empty system instead)
+RecWith(seq) == IF seq = <<>> THEN SS!EmptyRec
+                ELSE [SS!EmptyRec EXCEPT !.seq = seq, !.cur = seq[Len(seq)], !.active = TRUE, !.chan = "latest/stable"]
+WorldWith(seq) == IF seq = <<>> THEN SS!EmptyWorld
+                  ELSE [mounted |-> Range(seq), linked |-> seq[Len(seq)], data |-> Range(seq), common |-> TRUE]
+
 Init ==
-    /\ recs = [s \in Snaps |-> SS!EmptyRec]
-    /\ worlds = [s \in Snaps |-> SS!EmptyWorld]
+    /\ \E f \in InitCtx : /\ recs = [s \in Snaps |-> RecWith(f[s])]
+                          /\ worlds = [s \in Snaps |-> WorldWith(f[s])]
     /\ env = [retain |-> RetainInit, onClassic |-> FALSE, boot |-> {}, kernel |-> FALSE]
     /\ chg = IdleChg
     /\ clock = 0
@@ -303,14 +331,29 @@ Init ==
     /\ rdy = [c \in 1..2 |-> FALSE]
     /\ panicked = FALSE
 
-Next ==
-    \/ \E kind \in KindOpts : \E txn \in (IF kind = "remove-many" THEN {FALSE} ELSE TxnOpts) : \E sel \in Sels(kind) :
-          Request(kind, txn, sel)
-    \/ \E t \in Tasks :
-          \/ Start(t) \/ FinishDo(t) \/ FinishDoAborted(t) \/ StartUndo(t) \/ FinishUndo(t) \/ NoUndo(t)
-          \/ \E mode \in FailModes(t) : Fail(t, mode)
-    \/ FinishRR \/ AbortHoldRR
-    \/ Settle
+\* Reduction (model checking only).  Once the fault budget of the change is spent, no step of one snap's chain reads
+\* or writes anything of another snap's chain (chains are linear, lanes are only read by Fail), so steps of different
+\* snaps commute and the settled state does not depend on their order: explore one order only (the chain of the
+\* first snap that is not yet quiescent moves).  Before the last fault every interleaving is explored, because the
+\* lane abort inside Fail reads the status of every task.  The unreduced run of the same configuration is part of
+\* the thorough tier (same invariants, same settled states).
+QuiescentPos(i) == \A t \in chg.first[i]..(chg.first[i + 1] - 1) : TE!IsReadyS(status[t])
+MayStep(t) == \/ ~Reduce \/ chg.nfail < MaxFaults \/ chg.owner[t] = 0
+              \/ \A j \in 1..(chg.owner[t] - 1) : QuiescentPos(j)
+TaskRange == IF Running THEN {t \in 1..(IF chg.rr # 0 THEN chg.rr ELSE chg.n) : MayStep(t)} ELSE {}
+
+RequestAny == \E kind \in (IF Idle THEN KindOpts ELSE {}) : \E txn \in (IF kind = "remove-many" THEN {FALSE} ELSE TxnOpts) :
+                 \E sel \in Sels(kind) : Request(kind, txn, sel)
+StartAny == \E t \in TaskRange : Start(t)
+FinishDoAny == \E t \in TaskRange : FinishDo(t)
+FinishDoAbortedAny == \E t \in TaskRange : FinishDoAborted(t)
+FailAny == \E t \in TaskRange : \E mode \in FailModes(t) : Fail(t, mode)
+StartUndoAny == \E t \in TaskRange : StartUndo(t)
+FinishUndoAny == \E t \in TaskRange : FinishUndo(t)
+NoUndoAny == \E t \in TaskRange : NoUndo(t)
+
+Next == RequestAny \/ StartAny \/ FinishDoAny \/ FinishDoAbortedAny \/ FailAny \/ StartUndoAny \/ FinishUndoAny \/ NoUndoAny
+        \/ FinishRR \/ AbortHoldRR \/ Settle
 
 Spec == Init /\ [][Next]_vars
 
@@ -381,11 +424,13 @@ ConsistentAll ==
 \* (5) the change ends in Error exactly when a task failed
 ChangeErrorIffFailed == Settled => (chg.status = "Error" <=> AnyFailed) /\ (chg.status = "Done" <=> ~AnyFailed)
 
-\* (6) the lane rule itself, on the graph the change was created with
+\* (6) the lane rule itself, on the graph the change was created with: every task of a snap's chain is in exactly
+\* one lane, the same as the first task of that chain; two chains share their lane iff the change is transactional
 LaneDiscipline ==
-    ~Idle => /\ \A t \in Tasks : (chgOf[t] = 1 /\ chg.owner[t] # 0) => Len(lanes[t]) = 1 /\ lanes[t][1] # 0
-             /\ \A t, u \in Tasks : (chgOf[t] = 1 /\ chgOf[u] = 1 /\ chg.owner[t] # 0 /\ chg.owner[u] # 0) =>
-                    ((lanes[t] = lanes[u]) <=> (chg.txn \/ chg.owner[t] = chg.owner[u]))
+    ~Idle => /\ \A t \in Tasks : (chgOf[t] = 1 /\ chg.owner[t] # 0) =>
+                    /\ Len(lanes[t]) = 1 /\ lanes[t][1] # 0
+                    /\ lanes[t] = lanes[chg.first[chg.owner[t]]]
+             /\ \A i, j \in 1..Len(chg.sel) : i # j => ((lanes[chg.first[i]] = lanes[chg.first[j]]) <=> chg.txn)
              /\ (chg.rr # 0 => lanes[chg.rr] = <<0>>)
 
 \* engine sanity (C03 at this level): no "unexpectedly became unready", ready iff all tasks ready
